@@ -2151,9 +2151,15 @@ def replay(path):
     hist = {}; findings = []; samples = []
     fn = {"cfg": cfg_stream, "perm": perm_stream, "live": live_stream, "map": map_stream, "ens": ens_stream}[case["stream"]]
     fn(int(case["seed"]), int(case["shard"]), 0, case["tier"], hist, findings, samples, ks=[int(case["k"])])
+    known = {e["class_key"] for e in framework.load_known(PID)}
+    bad = 0
     for f in findings:
+        if f["kind"] == "monitor" and f["class_key"] in known:
+            print("KNOWN-FINDING: property=%s %s [%s]" % (PID, f["what"][:300], f["class_key"]))
+            continue
         print("%s: [%s] %s" % (f["kind"], f["class_key"], f["what"][:800]))
-    if findings:
+        bad += 1
+    if bad:
         print("VIOLATION property=%s replay=%s" % (PID, path))
         return 1
     print("replay: property held on this case")
